@@ -302,9 +302,90 @@ def slice_keep_pass(ctx):
             return
 
 
+def cross_opposite_pass(ctx):
+    """two documents whose objects are paired by a bidirectional reference (many on one side, single on the other), both
+    loaded in one resource set, nothing followed: the holder of the many end is deleted — its collection still holds
+    unresolved proxies — and the objects of the other document, reached by navigating it, no longer point back at it"""
+    import os, shutil, tempfile
+    from pyecore import ecore as E
+    from pyecore.resources import ResourceSet, URI
+    from pyecore.resources.json import JsonResource
+    tmp = tempfile.mkdtemp(prefix='verif_c07_')
+    try:
+        for k in range(12 if ctx.quick() else 120):
+            rng = common.sub_rng(ctx.seed, 'C07', 'cross-opposite', k)
+            fmt = 'xmi' if k % 2 == 0 else 'json'
+            pk = E.EPackage('co', f'http://verif/c07/co{k}', 'co')
+            A, B = E.EClass('A'), E.EClass('B')
+            pk.eClassifiers.extend([A, B])
+            outs = E.EReference('outs', B, upper=-1)
+            back = E.EReference('back', A, eOpposite=outs)
+            A.eStructuralFeatures.extend([E.EAttribute('name', E.EString), outs])
+            B.eStructuralFeatures.extend([E.EAttribute('name', E.EString), back])
+
+            def rs():
+                r = ResourceSet()
+                r.resource_factory['json'] = lambda uri: JsonResource(uri)
+                r.metamodel_registry[pk.nsURI] = pk
+                return r
+            d = os.path.join(tmp, f'co{k}')
+            os.makedirs(d)
+            w = rs()
+            pa, pb = os.path.join(d, f'a.{fmt}'), os.path.join(d, f'b.{fmt}')
+            ra, rb = w.create_resource(URI(pa)), w.create_resource(URI(pb))
+            a, a2 = A(name='a'), A(name='a2')
+            bs = [B(name=f'b{i}') for i in range(rng.randint(2, 4))]
+            ra.append(a); ra.append(a2)
+            for b in bs:
+                rb.append(b)
+            for b in rng.sample(bs, rng.randint(1, len(bs))):
+                a.outs.append(b)
+            try:
+                ra.save(); rb.save()
+                rset = rs()
+                la = rset.get_resource(URI(pa)).contents[0]
+                lbs = list(rset.get_resource(URI(pb)).contents)
+            except Exception as e:
+                ctx.count('cross-opposite/setup-raised/' + type(e).__name__)
+                continue
+            followed = rng.random() < .3
+            if followed:
+                _ = [x.name for x in la.outs]
+            ctx.evaluations += 1
+            ctx.count(f'cross-opposite/{fmt}/' + ('followed' if followed else 'unfollowed'))
+            ctx.nontriv(('cross-opposite', k))
+            rep = {'cross_opposite': k, 'format': fmt, 'followed': followed}
+            try:
+                la.delete()
+            except Exception as e:
+                # (the recorded finding of C14 — proxies hashed before they were followed — is about unique collections that
+                # have been followed; an unfollowed collection has no such element)
+                if followed:
+                    ctx.count('cross-opposite/followed-delete-raised/' + type(e).__name__)
+                    continue
+                ctx.violate({'clause': 'delete-raised', 'trigger': 'none', 'cross': True, 'opposite': True},
+                            f'delete-raised: {type(e).__name__}: {e}', rep)
+                return
+            left = []
+            for b in lbs:
+                v = b.__dict__.get('back')
+                raw = v._value if v is not None else None
+                tgt = getattr(raw, '_wrapped', None) if hasattr(raw, '_proxy_path') else raw
+                if tgt is la or (hasattr(raw, '_proxy_path') and not raw.resolved and raw._proxy_path.endswith('#/0') ):
+                    left.append(b.name)
+            if left:
+                ctx.violate({'clause': 'dangling', 'trigger': 'none', 'cross': True, 'opposite': True},
+                            f'dangling: after delete() of the holder of the many end ({fmt}, its collection {"followed" if followed else "not followed"}), '
+                            f'{left} of the other document still point back at it', rep)
+                return
+    finally:
+        shutil.rmtree(tmp, ignore_errors=True)
+
+
 def run(ctx):
     common.use_repo()
     derived_pass(ctx)
+    cross_opposite_pass(ctx)
     self_opposite_pass(ctx)
     slice_keep_pass(ctx)
     evolving_pass(ctx)
